@@ -98,3 +98,36 @@ package appdb
 //@   trusted
 //@   ensures result == appDB.versions
 //@   modifies appDB.versions
+
+//@ # ---------------------------------------------------------------- block-reward price rule (C28)
+//@ # ASSUMED (lazy load through rlp): GetPrice returns the cached record (loading it from disk first if needed);
+//@ # the zero time means "no record yet"
+//@ func (*AppDB).GetPrice
+//@   trusted
+//@   ensures known: old(appDB.price) != nil ==> !timeIsZero(t) && appDB.price == old(appDB.price)
+//@   ensures fields: !timeIsZero(t) ==> appDB.price != nil && r0 == appDB.price.R0 && r1 == appDB.price.R1 && off == appDB.price.Off && lastReward != nil && fresh(lastReward) && appDB.price.Last != nil && lastReward.val == appDB.price.Last.val
+//@   modifies appDB.price
+
+//@ axiom [real] powpos4: forall z real :: z > 0 ==> pow(z, real(1)/real(4)) > 0
+
+//@ # reward rule: safeReward is always the price-derived amount pc = trunc(350e18 * p^(1/4)), p = r1/r0;
+//@ # a fall of 10% or more (rounded down to whole percent) zeroes the validators' reward; it then recovers by 10 BIP
+//@ # per update up to pc; otherwise reward == pc. The new state is stored with SetPrice.
+//@ func (*AppDB).UpdatePriceFix
+//@   serves C28
+//@   let pc = trunc(pow(real(r1.val) / real(r0.val), real(1)/real(4)) * 350 * 1000000000000000000)
+//@   let pOld = real(old(appDB.price.R1.val)) / real(old(appDB.price.R0.val))
+//@   let pNew = real(r1.val) / real(r0.val)
+//@   let diff = floor(((pNew - pOld) / pOld) * 100)
+//@   let last0 = old(appDB.price.Last.val)
+//@   let off0 = old(appDB.price.Off)
+//@   let cached = old(appDB.price) != nil
+//@   requires appDB != nil && r0 != nil && r1 != nil && r0.val > 0 && r1.val > 0
+//@   requires appDB.price != nil ==> appDB.price.R0 != nil && appDB.price.R1 != nil && appDB.price.Last != nil && appDB.price.R0.val > 0 && appDB.price.R1.val > 0 && appDB.price.Last.val >= 0
+//@   ensures [real] safe: safeReward != nil && safeReward.val == old(pc)
+//@   ensures [real] drop: cached && old(diff) <= -10 ==> reward.val == 0 && appDB.price.Off && appDB.price.Last.val == 0
+//@   ensures [real] recover: cached && old(diff) > -10 && off0 && last0 < old(pc) ==> reward.val == min(last0 + 10000000000000000000, old(pc)) && appDB.price.Last.val == reward.val && (appDB.price.Off <==> last0 + 10000000000000000000 < old(pc))
+//@   ensures [real] normal: cached && old(diff) > -10 && !(off0 && last0 < old(pc)) ==> reward.val == old(pc) && !appDB.price.Off && appDB.price.Last.val == old(pc)
+//@   ensures [real] first: !cached ==> reward.val <= safeReward.val
+//@   ensures [real] bounded: cached && old(pc) >= 0 ==> 0 <= reward.val && reward.val <= safeReward.val
+//@   ensures stored: appDB.price != nil && appDB.isDirtyPrice && appDB.price.R0.val == old(r0.val) && appDB.price.R1.val == old(r1.val)
